@@ -199,7 +199,11 @@ def gen_stmts(d, lists, scal, p_fold=12):
             out.append(["foreach", n, None, "p", [["foreach", m, None, "q", [["expr", ["bin", "!=", ["it", "p"], ["it", "q"]]]]]]])
         elif r < 76:
             k = d.randint(0, emax * 2)
-            out.append(["expr", ["bin", d.choice(["==", "<=", ">=", "!="]), ["sum", n], L(k) if d.chance(70) else ["f", d.choice(scal)]]])
+            se = ["sum", n]
+            if d.chance(30):
+                # the sum as an operand of a further operation: its width follows the list's length from call to call
+                se = ["bin", d.choice(["+", "-", "^"]), se, L(d.randint(0, 2)) if d.chance(60) else ["f", d.choice(scal)]]
+            out.append(["expr", ["bin", d.choice(["==", "<=", ">=", "!="]), se, L(k) if d.chance(70) else ["f", d.choice(scal)]]])
         elif r < 80:
             k = d.choice([0, 1, 2, 3, 4, 6, 8, 9, 12, 27])
             out.append(["expr", ["bin", d.choice(["==", "<=", ">=", "!="]), ["prod", n], L(k) if d.chance(70) else ["f", d.choice(scal)]]])
